@@ -708,6 +708,7 @@ func RecoverWALData() {
 	for _, fileData := range walFilesData {
 		mBlock := initMetricsBlock(fileData.mId, fileData.segID, fileData.blockNo)
 		isWalFileEmpty := true
+		replayedWalFiles := make([]string, 0, len(fileData.walFiles))
 		for _, walFileName := range fileData.walFiles {
 			filePath := filepath.Join(baseDir, walFileName)
 			walIterator, err := wal.NewWALReader(filePath)
@@ -732,10 +733,7 @@ func RecoverWALData() {
 				isWalFileEmpty = false
 			}
 			_ = walIterator.Close()
-			err = deleteWalFile(baseDir, walFileName)
-			if err != nil {
-				log.Warnf("RecoverWALData : Failed to delete wal file %s: %v", walFileName, err)
-			}
+			replayedWalFiles = append(replayedWalFiles, walFileName)
 		}
 
 		if !isWalFileEmpty {
@@ -744,9 +742,18 @@ func RecoverWALData() {
 			if err != nil {
 				log.Warnf("RecoverWALData :Failed to flush block for shardID=%s, segID=%d, blockNo=%d: %v",
 					fileData.mId, fileData.segID, fileData.blockNo, err)
+				// keep the wal files, so that the datapoints can be recovered on the next restart
+				continue
 			}
 		}
 
+		// delete the wal files only after the recovered block is on disk
+		for _, walFileName := range replayedWalFiles {
+			err = deleteWalFile(baseDir, walFileName)
+			if err != nil {
+				log.Warnf("RecoverWALData : Failed to delete wal file %s: %v", walFileName, err)
+			}
+		}
 	}
 }
 
@@ -2278,6 +2285,7 @@ func RecoverMNameWALData() {
 	for _, fileData := range walFilesData {
 		ms := initSegment(fileData.segID, strconv.FormatUint(fileData.mId, 10))
 		isWalFileEmpty := true
+		replayedWalFiles := make([]string, 0, len(fileData.walFiles))
 		for _, walFileName := range fileData.walFiles {
 
 			filePath := filepath.Join(mNameWalDir, walFileName)
@@ -2302,10 +2310,7 @@ func RecoverMNameWALData() {
 				isWalFileEmpty = false
 			}
 			_ = walIterator.Close()
-			err = deleteWalFile(mNameWalDir, walFileName)
-			if err != nil {
-				log.Warnf("RecoverMNameWALData : Failed to delete wal file %s: %v", walFileName, err)
-			}
+			replayedWalFiles = append(replayedWalFiles, walFileName)
 		}
 
 		if !isWalFileEmpty {
@@ -2313,9 +2318,18 @@ func RecoverMNameWALData() {
 			if err != nil {
 				log.Warnf("RecoverMNameWALData :Failed to flush Metrics Name for shardID=%d, segID=%d,: %v",
 					fileData.mId, fileData.segID, err)
+				// keep the wal files, so that the metric names can be recovered on the next restart
+				continue
 			}
 		}
 
+		// delete the wal files only after the recovered metric names are on disk
+		for _, walFileName := range replayedWalFiles {
+			err = deleteWalFile(mNameWalDir, walFileName)
+			if err != nil {
+				log.Warnf("RecoverMNameWALData : Failed to delete wal file %s: %v", walFileName, err)
+			}
+		}
 	}
 }
 
